@@ -609,7 +609,8 @@ def check_C12(ctx):
 # C17: help text
 # =======================================================================================
 
-DESCS = ["", "does things", "first line\nsecond line", "  padded  ", "with (parens) and $dollar", "tab\there"]
+DESCS = ["", "does things", "first line\nsecond line", "  padded  ", "with (parens) and $dollar", "tab\there",
+         "100% sure\nuse %d or %s here\nand 50%", "rate in %\n"]
 
 
 def expected_help(cmds, long, tbl):
@@ -685,8 +686,8 @@ def expected_help(cmds, long, tbl):
 def check_C17(ctx):
     rng = ctx.rng
     cases, meta = [], []
-    defs = {"bool": [["false"], ["true"]], "string": [[""], ["dflt"], ['q"uo\\te']], "int": [["0"], ["-42"]], "float": [["0"], ["2.5"], ["1e21"]],
-            "strings": [[], ["a", "b c"]], "ints": [[], ["4", "5"]], "floats": [[], ["0.5", "100000"]]}
+    defs = {"bool": [["false"], ["true"]], "string": [[""], ["dflt"], ['q"uo\\te'], ["build-%d"], ["100%"]], "int": [["0"], ["-42"]], "float": [["0"], ["2.5"], ["1e21"]],
+            "strings": [[], ["a", "b c"], ["%s", "x%"]], "ints": [[], ["4", "5"]], "floats": [[], ["0.5", "100000"]]}
     floats = set()
     for _ in range(ctx.scale(700, 7000)):
         def node(name, dep):
